@@ -103,6 +103,8 @@ def get_oracle(line, c_out):
     bl = blocks_of(c_out)
     cap = 64 if mode == 3 else 1024       # mode 3: libcoap block mode with max block size 64
     exp = [max(1, -(-len(want) // cap))] + [max(1, -(-len(want) // min(cap, 16 << z))) for z in szxs]
+    if mode & 4:
+        return None       # libcoap client: the block exchange is inside the library, bodies only
     if mode != 1:
         # block mode 0, or a capped block size: a GET without Block2 is answered in one PDU
         # whenever the listing fits - only the block-wise GETs have a prescribed block count
@@ -309,15 +311,15 @@ def gen_cases(run, r):
                 lines.append(gen_link.case_line("lfwk", ops, q, gen_link.boundary_windows(r, ops, q)))
             kinds.append(kind)
         # GET /.well-known/core through a server endpoint, with and without block mode
-        for k in range(3 if quick else 5):
-            kind, q = gen_link.gen_filter(r, ops) if k else ("none", None)
+        for k in range(5 if quick else 6):
+            kind, q = gen_link.gen_filter(r, ops) if k % 3 else ("none", None)
             if q is not None and len(q) > 200:
                 continue
             if q == b"":
                 q = None      # coap_pdu_parse rejects an empty Uri-Query option (C03's limit table)
             L = len(gen_link.py_listing(ops, q))
-            mode = [1, 0, 3, 0, 1][k % 5]
-            if k and q is not None and r.random() < 0.5:
+            mode = [1, 0, 3, 5, 4][k % 5] if quick else [1, 0, 3, 5, 4, 7][r.randrange(6)]
+            if k % 3 and q is not None and r.random() < 0.5:
                 # a filter that survives coap_get_query unchanged (F20c is exercised by the others)
                 q = bytes(c for c in q if c in UNESC) or None
             szx = [z for z in range(7) if L <= 600 or z >= 2]
